@@ -1399,7 +1399,7 @@ class Exec(object):
         c = self.c
         p = Path()
         for n, t in c.param_types.items():
-            p.env[n] = SV(t, z3.Const(n, sort_of(t)))
+            p.env[n] = SV(t, z3.Const('v_' + n, sort_of(t)))       # prefixed: plain names may clash with datatype accessors in SMT-LIB
             p.pc += self.type_inv(p.env[n])
         p.old = dict(p.env)
         for g, src in c.ghost.items():
